@@ -597,6 +597,10 @@ func UnmarshalArrayYAML(value *yaml.Node) (*GeneralizedType, error) {
 					return nil, err
 				}
 
+				if ndims < 0 {
+					return nil, parseError(v, "the number of array dimensions cannot be negative")
+				}
+
 				dims := make(ArrayDimensions, ndims)
 				for i := range dims {
 					dims[i] = &ArrayDimension{NodeMeta: createNodeMeta(v)}
